@@ -20,6 +20,7 @@ package discovery
 import (
 	"context"
 	"fmt"
+	"sync"
 
 	"github.com/lindb/common/pkg/logger"
 
@@ -85,7 +86,57 @@ type discovery struct {
 	ctx    context.Context
 	cancel context.CancelFunc
 
+	// keys of the resources which listener knows, for finding the resources which were deleted when watch reconnect
+	keys  map[string]struct{}
+	mutex sync.Mutex
+
 	logger logger.Logger
+}
+
+// onCreate notifies the listener that the resource is created/modified.
+func (d *discovery) onCreate(key string, value []byte) {
+	d.mutex.Lock()
+	if d.keys == nil {
+		d.keys = make(map[string]struct{})
+	}
+	d.keys[key] = struct{}{}
+	d.mutex.Unlock()
+
+	d.listener.OnCreate(key, value)
+}
+
+// onDelete notifies the listener that the resource is deleted.
+func (d *discovery) onDelete(key string) {
+	d.mutex.Lock()
+	delete(d.keys, key)
+	d.mutex.Unlock()
+
+	d.listener.OnDelete(key)
+}
+
+// onAll handles all resources under the prefix after watch (re)connect,
+// the changes between previous state and the watch starts are not delivered by watch, so need find them:
+// the resources which listener knows but not exist any more are deleted, others are created/modified.
+func (d *discovery) onAll(kvs []state.EventKeyValue) {
+	exist := make(map[string]struct{}, len(kvs))
+	for _, kv := range kvs {
+		exist[kv.Key] = struct{}{}
+	}
+	d.mutex.Lock()
+	var deleted []string
+	for key := range d.keys {
+		if _, ok := exist[key]; !ok {
+			deleted = append(deleted, key)
+		}
+	}
+	d.mutex.Unlock()
+
+	for _, key := range deleted {
+		d.onDelete(key)
+	}
+	for _, kv := range kvs {
+		d.onCreate(kv.Key, kv.Value)
+	}
 }
 
 // Discovery starts discovery resources change, includes create/delete/clean.
@@ -102,7 +153,7 @@ func (d *discovery) Discovery(init bool) error {
 
 		// init exist resource.
 		for _, kv := range kvs {
-			d.listener.OnCreate(kv.Key, kv.Value)
+			d.onCreate(kv.Key, kv.Value)
 		}
 	}
 
@@ -128,12 +179,14 @@ func (d *discovery) handlerResourceChange(eventCh state.WatchEventChan) {
 		switch event.Type {
 		case state.EventTypeDelete:
 			for _, kv := range event.KeyValues {
-				d.listener.OnDelete(kv.Key)
+				d.onDelete(kv.Key)
 			}
 		case state.EventTypeModify:
 			for _, kv := range event.KeyValues {
-				d.listener.OnCreate(kv.Key, kv.Value)
+				d.onCreate(kv.Key, kv.Value)
 			}
+		case state.EventTypeAll:
+			d.onAll(event.KeyValues)
 		}
 	}
 }
